@@ -80,6 +80,27 @@ CHECKS["C18"] = ("model_checking",
     "MC_Validation_mut (no hierarchy check) must violate.",
     "TLC; the catalogue of malformations is transcribed from the property statement; carrier families rotate in quick",
     "DESIGN.md §4 C18")
+CHECKS["C03"] = ("model_checking",
+    "TLC model checks the direction table / closing / intersection indexing of the polygon construction (DirectSampling.tla) for all 19 admissible angular steps; TLC-enumerated (deg_step, sample class, alpha class) cases are executed and every polygon edge is judged by TLC (Trace_C03.tla)",
+    "The combinatorial half (which tangent lines are intersected, closure, full circle once) is a finite structure checked exhaustively for every admissible deg_step with named deviations "
+    "(N+1 angles closed with angles[0] = the repaired defect, index shift) that must violate. The numeric half is judged per edge of 532 (quick) / 4788 (thorough) real contours: StepExact, "
+    "FullCircleOnce, EdgeOnTangent (offset = hand-written order-statistic interpolation of the projected sample), FractionBeyond (exact rational counts), DefaultN, SampleKept, FiniteVertices.",
+    "TLC; the reference quantile is written out in the driver (sorted projections, index (n-1)p, linear interpolation); edges shorter than 1e-4 of the polygon are judged through their neighbours; collinear samples not judged",
+    "DESIGN.md §4 C03")
+CHECKS["C17"] = ("model_checking",
+    "TLC model checks Intersect.tla / DesignCond.tla on integer lattices (all small polyline pairs / star-shaped polygons), emits every case, each is run through the real intersection / calculate_design_conditions and compared with the exact rational expectation by TLC; random float contours judged by TLC",
+    "The geometric statements are exact on an integer lattice: crossings by signs of integer cross products, crossing points as rationals compared by cross-multiplication. 47k lattice polyline "
+    "pairs + 10k lattice-polygon calls (quick; 517k + 70k thorough) are all executed on the real code; IFORM/ISORM/direct-sampling contours of random models and non-convex stars with steps "
+    "None/int/lists (inside, outside, at vertex abscissae), both swap_axis values: Design, DesignAtVertex, TopOrdinate, TopAtVertex, DefaultSpan, RequestedAbscissa, Omission, OnContour, SwapIsExchange, NoException.",
+    "TLC; general position for the intersection routine (strict/closed parameter range only distinguishable on exact lattice inputs); nearly vertical edges accept any point of the edge",
+    "DESIGN.md §4 C17")
+CHECKS["C20"] = ("model_checking",
+    "TLC enumerates export / plot configurations (Export.tla), each is executed (files written and read back, matplotlib artists inspected) and compared with the specified text / polyline / scatter by TLC (Trace_C20.tla)",
+    "File text, path rule, header, rows and parsed values, the closed polyline, swap, sample and design-condition scatter and the dataset reader are finite-format statements: 880 configurations "
+    "(contour size, 2-D/3-D, semantics alphabets incl. ';' and non-ASCII, paths with/without extension and dotted directories, swap, design_conditions None/True/array) all executed; named "
+    "deviations (%1.5f, missing closing point, always .txt) must violate in the model. The other plot functions are compared with the model's own pdf / dependence values / per-interval estimates.",
+    "TLC; matplotlib Agg backend; recording wrappers on model.marginal_icdf and Axes.contour for the plot functions",
+    "DESIGN.md §4 C20")
 
 NOT_YET = {}
 
